@@ -549,7 +549,6 @@ def _run_sched(case, tmpdir):
         results = {}
 
         async def req(i, r):
-            await asyncio.sleep(r["at"])
             try:
                 await idx.search(r["text"])
                 results[f"r{i}"] = "ok"
@@ -559,7 +558,6 @@ def _run_sched(case, tmpdir):
                 results[f"r{i}"] = "exc: " + type(e).__name__ + ": " + str(e)[:80]
 
         async def direct(j, d):
-            await asyncio.sleep(d["at"])
             try:
                 r = await idx._get_embeddings(list(d["texts"]))
                 results[f"d{j}"] = [venc(v) for v in r] if isinstance(r, list) else "exc: not a list"
@@ -567,10 +565,21 @@ def _run_sched(case, tmpdir):
                 results[f"d{j}"] = "exc: " + type(e).__name__ + ": " + str(e)[:80]
 
         async def main():
-            # un-batched requests are direct calls `_get_embeddings([text])` of search(); they are numbered after the directs
-            tasks = [loop.create_task(req(i, r), name=(f"r{i}" if batched else f"d{ndir + i}")) for i, r in enumerate(case["reqs"])]
-            tasks += [loop.create_task(direct(j, d), name=f"d{j}") for j, d in enumerate(case["directs"])]
-            done, pending = await asyncio.wait(tasks, timeout=1e6)
+            # arrivals: tasks are created at their (virtual) arrival time; simultaneous arrivals start in list order
+            # (requests before direct calls).  Un-batched requests are the direct calls `_get_embeddings([text])`
+            # of search(); they are numbered after the directs.
+            arrivals = sorted([(r["at"], 0, i) for i, r in enumerate(case["reqs"])] + [(d["at"], 1, j) for j, d in enumerate(case["directs"])])
+            tasks = []
+            for at, kind, k in arrivals:
+                if at > loop.time():
+                    await asyncio.sleep(at - loop.time())
+                if kind == 0:
+                    tasks.append(loop.create_task(req(k, case["reqs"][k]), name=(f"r{k}" if batched else f"d{ndir + k}")))
+                else:
+                    tasks.append(loop.create_task(direct(k, case["directs"][k]), name=f"d{k}"))
+            pending = []
+            if tasks:
+                done, pending = await asyncio.wait(tasks, timeout=1e6)
             for t in pending:
                 t.cancel()
             for _ in range(3):
@@ -784,9 +793,9 @@ def g_sched(rng, big=False):
             at = rng.randint(0, 3 * n)
         else:
             at = rng.choice([0, 0, 1, 2, 3, 5, 8])
-        reqs.append({"text": rng.choice(alpha), "at": at + i * 1e-6})
+        reqs.append({"text": rng.choice(alpha), "at": at})
     cache = g_cache(rng)
-    directs = [{"texts": g_texts(rng, rng.randint(0, 4), alpha), "at": rng.choice([0, 0.5, 1, 2, 4]) + 1e-7 * j} for j in range(rng.choice([0, 0, 1, 2, 3]))]
+    directs = [{"texts": g_texts(rng, rng.randint(0, 4), alpha), "at": rng.choice([0, 0.5, 1, 2, 4])} for j in range(rng.choice([0, 0, 1, 2, 3]))]
     pre = [t for t in alpha if rng.random() < 0.3] if cache["store"] in ("filesystem", "verif_shared") else []
     return {"kind": "sched", "src": "rand", "use_batching": rng.random() < 0.9, "max": mx, "hold": rng.choice(HOLD),
             "lats": [rng.choice(LAT) for _ in range(rng.randint(1, 4))], "cache": cache, "reqs": reqs, "directs": directs, "prestore": pre}
@@ -814,7 +823,7 @@ def g_exhaustive():
                     for hold, lat in combos:
                         for cache in caches:
                             yield {"kind": "sched", "src": "exh", "use_batching": True, "max": mx, "hold": hold, "lats": [lat], "cache": cache,
-                                   "reqs": [{"text": names[part[i]], "at": arr[i] + i * 1e-6} for i in range(n)], "directs": [], "prestore": []}
+                                   "reqs": [{"text": names[part[i]], "at": arr[i]} for i in range(n)], "directs": [], "prestore": []}
 
 
 def gen_cases(rng, tier):
@@ -840,7 +849,7 @@ def escalate(rng, focus, tier):
             c["lats"] = [rng.choice(LAT) for _ in range(rng.randint(1, 4))]
             for r in c["reqs"]:
                 if rng.random() < 0.3:
-                    r["at"] = rng.choice([0, 1, 2, 3, 5]) + rng.random() * 1e-3
+                    r["at"] = rng.choice([0, 1, 2, 3, 5])
             cases.append(c)
     return cases
 
@@ -873,4 +882,4 @@ def shrink(case):
     ats = sorted(set(int(r["at"]) for r in case["reqs"]))
     if ats and ats != list(range(len(ats))):
         rank = {a: k for k, a in enumerate(ats)}
-        yield dict(case, reqs=[dict(r, at=rank[int(r["at"])] + i * 1e-6) for i, r in enumerate(case["reqs"])])
+        yield dict(case, reqs=[dict(r, at=rank[int(r["at"])]) for r in case["reqs"]])
